@@ -6,6 +6,8 @@ def describe(group, case):
     if group == "val":
         return "validateAddress(%s, allowLocalhost=%s) = %s (cleaned %s) disagrees with the declarative address form" % (
             case.get("addr"), case.get("allow_localhost"), case.get("result"), case.get("clean"))
+    if group == "conc":
+        return "%s: the list ended with %s peers (largest length seen while running: %s)" % (case.get("what"), case.get("final_len"), case.get("max_len_sampled"))
     if group == "start":
         return "%s loads [%s]: an address invalid under the configured policy, or more than Max" % (case.get("start"), case.get("loaded"))
     return "peer list sequence Max=%s allowLocalhost=%s [%s] breaks validity / bound / trusted-kept" % (
@@ -24,6 +26,7 @@ SPEC = {
         "val": ("mism_val", "pf_val"),
         "start": ("mism_start", "pf_start"),
         "ops": ("mism_ops", "pf_ops"),
+        "conc": (None, "pf_conc"),
     },
     "trusted_base": [
         "hand-written model Model/Pex.v of validateAddress (regexp \\s strip, strings.Split on ':', net.ParseIP restricted to IPv4 as of Go 1.23 (leading zeros rejected), IsLoopback/IsGlobalUnicast, strconv.ParseUint(,10,16)) and of the peer list operations; compared with the implementation on every run",
